@@ -203,6 +203,8 @@ def _exporter(ctx, model):
         for ps in pss:
             rv = ps.retval
             ok, why = _judge_export(cls, kind, sym, fields, rv, sym_of)
+            if ok and kind == "compare":
+                ok, why = _export_comparison_table(model, mp, rv, sym_of)
             ctx.ob(key, ok, where(mem),
                    f"{cls} exported as {why}" if ok else
                    f"PymbolicToASTMapper.{mem.node.name} ({cls}): {why}",
@@ -507,6 +509,34 @@ def _analyse_fold(hm, fn=None):
     raise AnalysisError("_map_multi_children_op: fold shape not recognised")
 
 
+def _export_comparison_table(model, mp, rv, sym_of):
+    """the table the exported operator is looked up in maps each comparison
+    symbol to the ast class of that symbol"""
+    names = set()
+    contains(rv, lambda t: names.add(t[1][1]) and False
+             if isinstance(t, tuple) and len(t) >= 2 and t[0] == "index"
+             and isinstance(t[1], tuple) and t[1][0] == "self" else False)
+    if len(names) != 1:
+        return False, "the operator is not looked up in one table of the mapper"
+    mem = model.lookup(mp, names.pop())
+    v = None if mem is None or mem.kind == "func" else (
+        mem.node.value if mem.kind == "ann" else mem.node)
+    if not isinstance(v, ast.Dict):
+        return False, "the comparison table is not a dict literal"
+    bad = []
+    for k, val in zip(v.keys, v.values):
+        if not (isinstance(k, ast.Constant) and isinstance(k.value, str)
+                and isinstance(val, ast.Attribute)):
+            return False, "comparison table entry not of the form 'sym': ast.Cls"
+        if ast_ops()["cmpops"].get(val.attr) != k.value:
+            bad.append(f"'{k.value}' -> ast.{val.attr}")
+    if bad:
+        return False, "comparison table maps " + ", ".join(bad)
+    if len(v.keys) < 6:
+        return False, "comparison table has fewer than six entries"
+    return True, "ast.Compare with the operator's own ast class"
+
+
 def _judge_export(cls, kind, sym, fields, rv, sym_of):
     ctor = _ast_ctor(rv)
     if kind in ("nary", "binary"):
@@ -613,7 +643,26 @@ def _judge_export(cls, kind, sym, fields, rv, sym_of):
             return False, "Name(id) is not the variable's name"
         return True, "ast.Name"
     if kind == "compare":
-        return False, "comparison export not recognised"
+        # ast.Compare(left=rec(left), ops=[<table>[operator]()],
+        #             comparators=[rec(right)]): one link per node
+        kw = dict(rv[3]) if len(rv) > 3 else {}
+        pos = list(rv[2])
+        left = kw.get("left", pos[0] if pos else None)
+        ops = kw.get("ops", pos[1] if len(pos) > 1 else None)
+        comps = kw.get("comparators", pos[2] if len(pos) > 2 else None)
+        if ctor != "Compare" or left is None or ops is None or comps is None:
+            return False, "comparison export not recognised"
+        if not _rec_of(left, "left"):
+            return False, "Compare.left is not the mapped left operand"
+        if not (comps[0] == "lit" and len(comps[2]) == 1 and
+                _rec_of(comps[2][0], "right")):
+            return False, "Compare.comparators is not [mapped right operand]"
+        if not (ops[0] == "lit" and len(ops[2]) == 1 and contains(
+                ops[2][0], lambda t: t in (("field", "operator"),
+                                           ("attr", NODE, "operator")))):
+            return False, "Compare.ops is not one operator looked up by the " \
+                "node's operator"
+        return True, "ast.Compare (operator table checked separately)"
     return True, "not judged"
 
 
